@@ -219,7 +219,8 @@ class _Ctx(object):
         f = p["fns"][fid]
         b = f["module"]
         if b == self.module:
-            return f["name"]
+            # optionally through a module-level alias defined right after the function (name_al = name)
+            return f["name"] + "_al" if f.get("alias") else f["name"]
         form = _import_form(p, self.module, b, need_bare)
         if getattr(self, "fn_form", None) and (not need_bare or self.fn_form in BARE_FORMS):
             form = self.fn_form  # the function being rendered spells its own cross-module references this way
@@ -466,7 +467,10 @@ def render_module(p, m):
             v = p["vars"][xid]
             blocks.append(("var", xid, "%s = %s\n" % (v["name"], v["value"])))
         elif kind == "fn":
-            blocks.append(("fn", xid, render_fn(p, xid, ctx, prelude)))
+            t = render_fn(p, xid, ctx, prelude)
+            if p["fns"][xid].get("alias"):
+                t += "\n\n%s_al = %s\n" % (p["fns"][xid]["name"], p["fns"][xid]["name"])
+            blocks.append(("fn", xid, t))
         elif kind == "cls":
             blocks.append(("cls", xid, render_cls(p, xid, ctx)))
         elif kind == "extra":
